@@ -104,11 +104,35 @@ type iterRun struct {
 	props []string
 }
 
-func pairEq(a, b Pair) bool { return reflect.DeepEqual(a.A, b.A) && reflect.DeepEqual(a.B, b.B) }
+func pairEq(a, b Pair) bool { return anyEqv(a.A, b.A) && anyEqv(a.B, b.B) }
+
+// anyEqv: equality of observed values with NaN equal to NaN (a NaN key is a legitimate element under
+// cmp.Compare; the checker's own comparisons must not trip over it)
+func anyEqv(a, b any) bool {
+	if x, ok := a.(float64); ok {
+		if y, ok := b.(float64); ok {
+			return x == y || (x != x && y != y)
+		}
+	}
+	return reflect.DeepEqual(a, b)
+}
+
+// iterBudget is raised by the predicate when NextTo/PrevTo shows it more elements than any cursor
+// over n elements could (the iterator does not terminate).
+type iterBudget struct{}
 
 // step applies one iterator op to the real iterator and the cursor model.
-func (r *iterRun) step(o Op) *Viol {
+func (r *iterRun) step(o Op) (res *Viol) {
 	n := len(r.seq)
+	defer func() {
+		if x := recover(); x != nil {
+			if _, ok := x.(iterBudget); ok {
+				res = viol(r.props, "hang", "iterator %s keeps showing elements to the predicate (more than %d calls over %d elements): it does not terminate", o, 4*(n+3)+50, n)
+				return
+			}
+			panic(x)
+		}
+	}()
 	var got, want bool
 	hasRet := true
 	var log []Pair
@@ -116,9 +140,12 @@ func (r *iterRun) step(o Op) *Viol {
 	mkPred := func(mask int) func(a, b any) bool {
 		return func(a, b any) bool {
 			log = append(log, Pair{a, b})
+			if len(log) > 4*(n+3)+50 {
+				panic(iterBudget{})
+			}
 			// truth by position in the reference sequence
 			for i, p := range r.seq {
-				if reflect.DeepEqual(p.A, a) {
+				if anyEqv(p.A, a) {
 					return mask&(1<<uint(i)) != 0
 				}
 			}
